@@ -176,10 +176,12 @@ pub fn scenario(errors: bool) -> BoxedStrategy<Scenario> {
 				proptest::collection::vec(proptest::collection::vec(ev(throttle, errors), 1..12), 1..5),
 				// error queue size and a slow (20 ms per error) error handler: back-pressure on the worker
 				prop_oneof![1 => Just(1u32), 1 => Just(2), 3 => Just(64)],
-				proptest::bool::weighted(0.3),
+				// slow error handler; job churn: the handler creates jobs whose tasks are ended one by one while
+				// events keep coming (a quarter of the cases)
+				(proptest::bool::weighted(0.3), prop_oneof![3 => Just(None), 1 => (3u16..40, 5u8..30).prop_map(Some)]),
 			)
 		})
-		.prop_map(move |(throttle, chan, handler_async, handler_ms, producers, err_chan, slow_err)| Scenario {
+		.prop_map(move |(throttle, chan, handler_async, handler_ms, producers, err_chan, (slow_err, job_churn))| Scenario {
 			throttle,
 			chan,
 			err_chan: if errors { err_chan } else { 64 },
@@ -189,6 +191,7 @@ pub fn scenario(errors: bool) -> BoxedStrategy<Scenario> {
 			err_kind: u8::from(errors && slow_err),
 			empty_errs: errors && handler_ms % 2 == 0,
 			throttle_via_field: false,
+			job_churn,
 			err_j: 0,
 			replace_action_at: 0,
 			throttle_change: None,
